@@ -46,7 +46,7 @@ func keyLine(i int) string {
 }
 
 // lineOf renders one line spec: k<i> key, o<i> key with options, r<i> key + CR, c comment,
-// b blank, t white space only, g garbage, x<i> key with a trailing comment field
+// b blank, t white space only, g garbage, x<i> key with a trailing comment field, h<i> / j<i> key i commented out
 func lineOf(spec string) string {
 	n := 0
 	if len(spec) > 1 {
@@ -63,6 +63,11 @@ func lineOf(spec string) string {
 		return "   " + keyLine(n) + " user@host # not a comment"
 	case 'c':
 		return "# just a comment ssh-ed25519 AAAA"
+	case 'h':
+		// a key that was revoked by hand: commented out, otherwise a complete key line
+		return "# " + keyLine(n) + " alice@laptop"
+	case 'j':
+		return "#" + keyLine(n)
 	case 'b':
 		return ""
 	case 't':
